@@ -11,6 +11,8 @@ import Postcard.Model.SchemaSer
 import Postcard.Model.Cobs
 import Postcard.Model.Crc
 import Postcard.Model.Accumulator
+import Postcard.Model.SexpMTy
+import Postcard.Model.Fixint
 import Postcard.Spec.Cobs
 import Postcard.Spec.Fnv
 /-
@@ -275,6 +277,17 @@ def handle (line : String) : String :=
         match dec t bs with
         | .ok (_, r) => s!"ok consumed={bs.length - r.length}"
         | .error e => "err " ++ e.name
+      | _, _ => "bad-op"
+    | "maxsize", [m] =>
+      match mtyOfSexp m with
+      | some m => s!"ok {maxSize m}"
+      | none => "bad-op"
+    | "fix", [.atom order, .atom ty, .atom x] =>
+      match intOfName ty, parseInt x with
+      | some (signed, w), some x =>
+        if order == "le" then "ok " ++ hexOfBytes (enc (fixLE w signed x))
+        else if order == "be" then "ok " ++ hexOfBytes (enc (fixBE w signed x))
+        else "bad-op"
       | _, _ => "bad-op"
     | "hasty", [t, v] =>
       match tyOfSexp t, valOfSexp v with
